@@ -123,6 +123,10 @@ def dedupe(seq):
 
 
 CORPUS = [
+    # float64 count column with values in (0,1): min_nnz counts non-zero entries
+    {"per": [3, 2], "pixels": [[i, j, (1 + (2 * i + 3 * j) % 7) / 8] for i in range(5) for j in range(i, 5)],
+     "o": {"cis": False, "trans": False, "diags": 0, "mad": 0, "nnz": 3, "count": 0, "black": None, "tol": 1e-6, "iters": 200,
+           "x0": None, "rescale": True}},
     # D11 regression (fixed): ignore_diags=0 with a non-zero diagonal
     {"per": [4], "pixels": [[0, 0, 5], [0, 1, 3], [0, 2, 2], [1, 1, 7], [1, 2, 1], [1, 3, 4], [2, 2, 2], [2, 3, 6], [3, 3, 1]],
      "o": {"cis": False, "trans": False, "diags": 0, "mad": 0, "nnz": 0, "count": 0, "black": None, "tol": 1e-8, "iters": 200,
@@ -168,13 +172,16 @@ def _run(ctx, cooler, split, B, pool, pool4, maps, thorough, rng, tmp):
 
     # ------------------------------------------------------------ cases
     cases = [dict(c) for c in CORPUS]
-    ncool = 60 if thorough else 13
+    ncool = 60 if thorough else 12
     while len(cases) < ncool + len(CORPUS):
         per = G.random_per(rng)
         px = G.random_pixels(rng, per)
         if len(px) < 2:
             continue
         o = G.random_opts(rng, per)
+        if rng.random() < 0.3:                      # float64 count column (dyadic fractions)
+            px = G.float_counts(rng, px)
+            o["nnz"] = rng.choice([0, 1, 2, 3])
         o["iters"] = rng.choice([1, 2, 30, 60])
         o["tol"] = rng.choice([1e-2, 1e-3, 1e-4, 1e-5, 1e-6])
         cases.append({"per": per, "pixels": px, "o": o})
@@ -269,7 +276,7 @@ def _run(ctx, cooler, split, B, pool, pool4, maps, thorough, rng, tmp):
             spe = (C.lst([C.tup(C.z(a), C.z(b)) for a, b in spans]) if spans is not None
                    else f"(partition 0 {C.z(nnz)} {C.z(c)})")
             chunk_exprs.append(f"map qoutl (marg_chunks {C.nat(n)} {spe} {C.lst(fe)} {G.coq_px(pixels)})")
-            chunk_obs.append((case, got))
+            chunk_obs.append((case, got, 1 if binar else G.den_of(pixels)))
             ctx.case(case, nontrivial=c < nnz, kind="pipeline:gather")
 
             # counting pipeline: every stored pixel visited exactly once
@@ -304,7 +311,7 @@ def _run(ctx, cooler, split, B, pool, pool4, maps, thorough, rng, tmp):
         if ncli >= (8 if thorough else 3):
             break
         per, pixels, o = cs["per"], cs["pixels"], dict(cs["o"])
-        if o["x0"] is not None or o["black"]:
+        if o["x0"] is not None or o["black"] or o["count"] != int(o["count"]):
             continue
         o["rescale"] = True
         n = sum(per)
@@ -347,8 +354,8 @@ def _run(ctx, cooler, split, B, pool, pool4, maps, thorough, rng, tmp):
         model = dedupe([[list(s) for s in call] for call in mo])
         ctx.compare("spans handed to map == balance_spans/partition", case, seen, model)
     got = C.coq_eval(G.IMPORTS, chunk_exprs, tmpdir=tmp / "chunks", shard=40, jobs=4, timeout=300)
-    for (case, impl), mo in zip(chunk_obs, got):
-        model = [[Fraction(a, b) for a, b in res] for res in mo]
+    for (case, impl, den), mo in zip(chunk_obs, got):
+        model = [[Fraction(a, b) / den for a, b in res] for res in mo]      # model runs on the numerators count * den
         ctx.compare("per-chunk marginals == marg_chunks", case,
                     impl if isinstance(impl, str) else [[str(x) for x in r] for r in impl],
                     [[str(x) for x in r] for r in model])
